@@ -131,9 +131,9 @@ pub enum Op {
     Bond { by: Who, amt: Amt },
     Unbond { by: Who, amt: Amt },
     Claim { by: Who },
-    Advance { blocks: u16, secs: u32 },
+    Advance { blocks: u16, secs: u32, #[serde(default)] nanos: u32 },
     /// move the chain to (release of the user's earliest immature claim) + d (blocks or seconds)
-    AdvanceToRelease { by: Who, d: i8 },
+    AdvanceToRelease { by: Who, d: i8, #[serde(default)] fine: bool },
     Foreign { by: u8, kind: Foreign, amt: N, victim: u8 },
     /// plain token transfer to the staking contract (not a bond)
     Donate { by: u8, amt: Amt },
@@ -267,11 +267,11 @@ fn op_group() -> BoxedStrategy<Vec<Op>> {
             let mut g = vec![Op::Bond { by: Who::User(u), amt: Amt::Abs(N(5000)) }];
             for i in 0..n {
                 g.push(Op::Unbond { by: Who::User(u), amt: Amt::Abs(N(1 + i as u128 % 3)) });
-                g.push(Op::Advance { blocks: 1 + (i as u16 % 2), secs: 5 });
+                g.push(Op::Advance { blocks: 1 + (i as u16 % 2), secs: 5, nanos: 0 });
             }
-            g.push(Op::AdvanceToRelease { by: Who::User(u), d });
+            g.push(Op::AdvanceToRelease { by: Who::User(u), d, fine: false });
             g.push(Op::Claim { by: Who::User(u) });
-            g.push(Op::Advance { blocks: 3, secs: 15 });
+            g.push(Op::Advance { blocks: 3, secs: 15, nanos: 0 });
             g.push(Op::Claim { by: Who::User(u) });
             g
         })
@@ -281,19 +281,19 @@ fn op_group() -> BoxedStrategy<Vec<Op>> {
         28 => one((who(Who::WithFunds), bond_amt()).prop_map(|(by, amt)| Op::Bond { by, amt }).boxed()),
         20 => one((who(Who::WithStake), unbond_amt()).prop_map(|(by, amt)| Op::Unbond { by, amt }).boxed()),
         16 => one(who(Who::WithClaims).prop_map(|by| Op::Claim { by }).boxed()),
-        10 => one((0u16..4, 0u32..40).prop_map(|(blocks, secs)| Op::Advance { blocks, secs }).boxed()),
-        1 => one((0u16..300, 0u32..200_000).prop_map(|(blocks, secs)| Op::Advance { blocks, secs }).boxed()),
-        8 => one((who(Who::WithClaims), -1i8..=1).prop_map(|(by, d)| Op::AdvanceToRelease { by, d }).boxed()),
+        10 => one((0u16..4, 0u32..40, prop_oneof![3 => Just(0u32), 1 => 0u32..1_000_000_000]).prop_map(|(blocks, secs, nanos)| Op::Advance { blocks, secs, nanos }).boxed()),
+        1 => one((0u16..300, 0u32..200_000).prop_map(|(blocks, secs)| Op::Advance { blocks, secs, nanos: 0 }).boxed()),
+        8 => one((who(Who::WithClaims), -1i8..=1, proptest::bool::weighted(0.3)).prop_map(|(by, d, fine)| Op::AdvanceToRelease { by, d, fine }).boxed()),
         10 => one((user(), foreign_kind(), prop_oneof![3 => 1u128..1000, 1 => edge_u128()], user())
             .prop_map(|(by, kind, amt, victim)| Op::Foreign { by, kind, amt: N(amt), victim }).boxed()),
         1 => one((user(), donate_amt()).prop_map(|(by, amt)| Op::Donate { by, amt }).boxed()),
-        4 => (user(), bond_amt(), 0u8..255, -1i8..=1, any::<bool>()).prop_map(|(u, amt, k, d, claim_first)| {
+        4 => (user(), bond_amt(), 0u8..255, -1i8..=1, any::<bool>(), proptest::bool::weighted(0.3)).prop_map(|(u, amt, k, d, claim_first, fine)| {
             let by = Who::User(u);
             let mut g = vec![Op::Bond { by, amt }, Op::Unbond { by, amt: Amt::FracStake(k) }];
             if claim_first {
                 g.push(Op::Claim { by });
             }
-            g.push(Op::AdvanceToRelease { by, d });
+            g.push(Op::AdvanceToRelease { by, d, fine });
             g.push(Op::Claim { by });
             g
         }).boxed(),
@@ -796,8 +796,8 @@ pub fn run_case(prop: &str, case: &Case, ctx: &mut CaseCtx) -> Result<(), Violat
         let block = w.app.block_info();
         // ------------------------------------------------ time
         let adv: Option<(u64, u64)> = match op {
-            Op::Advance { blocks, secs } => Some((*blocks as u64, *secs as u64 * 1_000_000_000)),
-            Op::AdvanceToRelease { by, d } => {
+            Op::Advance { blocks, secs, nanos } => Some((*blocks as u64, *secs as u64 * 1_000_000_000 + *nanos as u64)),
+            Op::AdvanceToRelease { by, d, fine } => {
                 let u = resolve_who(by, &pre, &block);
                 let next = by_release(&pre.claims[u]).keys().find(|k| k.0 < 2 && !key_expired(k, &block)).cloned();
                 match next {
@@ -817,7 +817,9 @@ pub fn run_case(prop: &str, case: &Case, ctx: &mut CaseCtx) -> Result<(), Violat
                         }
                     }
                     Some((_, t)) => {
-                        let target = if *d >= 0 { t.saturating_add(*d as u64 * 1_000_000_000) } else { t.saturating_sub(d.unsigned_abs() as u64 * 1_000_000_000) };
+                        // `fine`: one nanosecond before / exactly at / one nanosecond after the release point
+                        let unit: u64 = if *fine { 1 } else { 1_000_000_000 };
+                        let target = if *d >= 0 { t.saturating_add(*d as u64 * unit) } else { t.saturating_sub(d.unsigned_abs() as u64 * unit) };
                         let nanos = target.saturating_sub(block.time.nanos());
                         if nanos > 1_000_000_000_000_000 {
                             ctx.count("advance_to_release_too_far");
@@ -1290,8 +1292,8 @@ pub fn decode_case(_prop: &str, u: &mut arbitrary::Unstructured) -> Case {
             0..=8 => ops.push(Op::Bond { by: d_who(u, Who::WithFunds), amt: d_bond_amt(u) }),
             9..=14 => ops.push(Op::Unbond { by: d_who(u, Who::WithStake), amt: d_unbond_amt(u) }),
             15..=19 => ops.push(Op::Claim { by: d_who(u, Who::WithClaims) }),
-            20..=22 => ops.push(Op::Advance { blocks: arb_below(u, 4) as u16, secs: arb_below(u, 40) as u32 }),
-            23..=25 => ops.push(Op::AdvanceToRelease { by: d_who(u, Who::WithClaims), d: d_pm1(u) }),
+            20..=22 => ops.push(Op::Advance { blocks: arb_below(u, 4) as u16, secs: arb_below(u, 40) as u32, nanos: if arb_bool(u, 1, 4) { u.int_in_range(0u32..=999_999_999).unwrap_or(0) } else { 0 } }),
+            23..=25 => ops.push(Op::AdvanceToRelease { by: d_who(u, Who::WithClaims), d: d_pm1(u), fine: arb_bool(u, 1, 3) }),
             26..=28 => {
                 let by = d_user(u);
                 let kind = [Foreign::WrongDenom, Foreign::TwoCoins, Foreign::OtherCw20, Foreign::WrongKind, Foreign::FakeReceive, Foreign::NamedLikeToken][arb_below(u, 6)];
@@ -1305,11 +1307,11 @@ pub fn decode_case(_prop: &str, u: &mut arbitrary::Unstructured) -> Case {
                 if arb_bool(u, 1, 2) {
                     ops.push(Op::Claim { by });
                 }
-                ops.push(Op::AdvanceToRelease { by, d: d_pm1(u) });
+                ops.push(Op::AdvanceToRelease { by, d: d_pm1(u), fine: arb_bool(u, 1, 3) });
                 ops.push(Op::Claim { by });
             }
             31 => ops.push(Op::Donate { by: d_user(u), amt: d_donate_amt(u) }),
-            32 => ops.push(Op::Advance { blocks: u.int_in_range(0u16..=299).unwrap_or(0), secs: u.int_in_range(0u32..=199_999).unwrap_or(0) }),
+            32 => ops.push(Op::Advance { blocks: u.int_in_range(0u16..=299).unwrap_or(0), secs: u.int_in_range(0u32..=199_999).unwrap_or(0), nanos: 0 }),
             _ => {
                 piles += 1;
                 let by = Who::User(d_user(u));
@@ -1318,11 +1320,11 @@ pub fn decode_case(_prop: &str, u: &mut arbitrary::Unstructured) -> Case {
                 ops.push(Op::Bond { by, amt: Amt::Abs(N(5000)) });
                 for i in 0..n {
                     ops.push(Op::Unbond { by, amt: Amt::Abs(N(1 + i as u128 % 3)) });
-                    ops.push(Op::Advance { blocks: 1 + (i as u16 % 2), secs: 5 });
+                    ops.push(Op::Advance { blocks: 1 + (i as u16 % 2), secs: 5, nanos: 0 });
                 }
-                ops.push(Op::AdvanceToRelease { by, d });
+                ops.push(Op::AdvanceToRelease { by, d, fine: false });
                 ops.push(Op::Claim { by });
-                ops.push(Op::Advance { blocks: 3, secs: 15 });
+                ops.push(Op::Advance { blocks: 3, secs: 15, nanos: 0 });
                 ops.push(Op::Claim { by });
             }
         }
